@@ -19,6 +19,7 @@ type Obj struct {
 	csz   []uint8 // size of the cell starting at o, 0 if none
 	ro    bool    // write-protected (vsym.Freeze)
 	label string
+	lazyLen *Term // lazily sized buffer: its real size in bytes (symbolic); storage grows on demand
 }
 
 type Ptr struct {
@@ -40,7 +41,8 @@ type Slice struct {
 	obj      *Obj
 	off      int // bytes
 	len, cap int // elements
-	symLen   *Term // length-only slices (C14): symbolic length, no element access
+	symLen   *Term // symbolic length: length-only slices (C14, no backing store) and lazily sized buffers
+	lazy     bool  // lazily sized buffer: len = cap = symLen, backing object grows on demand (zero-filled)
 }
 
 type Str struct {
@@ -269,6 +271,13 @@ func (vm *VM) clearRange(o *Obj, off, n int) {
 func (vm *VM) checkRange(o *Obj, off, n int, what string) {
 	if o == nil {
 		panic(goPanic{msg: "nil pointer dereference (" + what + ")"})
+	}
+	if off >= 0 && off+n > o.size && o.lazyLen != nil {
+		// lazily sized buffer: inside its (symbolic) real size the access is fine, storage is materialised now
+		if vm.decide(vm.ts.Ule(vm.ts.BV(64, uint64(off+n)), o.lazyLen)) {
+			vm.ensure(o, off+n)
+			return
+		}
 	}
 	if off < 0 || off+n > o.size {
 		// a native program would read/write outside the allocation: memory-safety violation
@@ -724,4 +733,23 @@ func (vm *VM) concretePtr(v Value) Ptr {
 		return Ptr{p.obj, p.off + i*p.stride}
 	}
 	panic(fmt.Sprintf("concretePtr on %T", v))
+}
+
+// ensure grows a lazily sized object so that it holds at least size bytes.
+func (vm *VM) ensure(o *Obj, size int) {
+	if size <= o.size {
+		return
+	}
+	if size > maxObjSize {
+		panic(pathEnd{"budget", "lazily sized buffer grew beyond the object size limit"})
+	}
+	vm.heapBytes += size - o.size
+	if vm.heapBytes > vm.cfg.MaxHeap {
+		panic(pathEnd{"budget", "heap budget exceeded"})
+	}
+	nv := make([]Value, size)
+	nc := make([]uint8, size)
+	copy(nv, o.vals)
+	copy(nc, o.csz)
+	o.vals, o.csz, o.size = nv, nc, size
 }
